@@ -11,7 +11,7 @@ CHECKS = {
          "Complete over the stated alphabets/ranges/witnesses, not over 2^256 keys and salts; RNG seam trusted to be the library's only entropy source (checked by draw log).",
          "DESIGN.md section 3, C01"),
  "C02": ("E2 choices", "model_checking",
-         "deviation-bounded exploration of an adversary on the wire (typed credentials, every single-bit change of B, salt, A, M1, M2) over the real four-message exchange, exact-equality reference oracle per party",
+         "deviation-bounded exploration of an adversary on the wire (typed credentials, every single-bit change of B, salt, A, M1, M2, the generator told to the client) over the real four-message exchange, exact-equality reference oracle per party",
          "For each session every execution with <= 1 deviation (1,095 per session, incl. A replaced by A+N) and, for a few sessions, every pair of deviations is run on the real code; each party must accept iff the presented proof equals the reference proof determined by its own view, errors must carry both proofs. Structured multi-bit alterations of M1 and M2 (all pairs of bit flips in the thorough tier, byte replacements, truncations, rotations, word-cancelling flips) are run against clones of the real typestate objects. Confusable credentials (blanks trimmed / collapsed / doubled / dropped, a character doubled or dropped, user and password swapped) must be refused whenever the reference normalisation keeps them apart.",
          "Session alphabet finite; deviation bound 1 (2 for a few sessions).",
          "DESIGN.md section 3, C02"),
@@ -27,7 +27,7 @@ CHECKS = {
          "DESIGN.md section 3, C04"),
  "C05": ("E2 choices", "model_checking",
          "deviation-bounded exploration of reconnect-attempt histories (replays, stale challenges, wrong key/name, all proof and client-data bit flips, repeated nonces) on one real SrpServer, reference state (U, K, current challenge)",
-         "All histories of length 6 (quick) / 8 and 12 (thorough) with at most 2 (resp. 1, 3) deviating attempts or refreshes over an alphabet of ~330 adversary actions are executed on the real object; verdict must equal proof == SHA1(U|client_data|current challenge|K) and every attempt must replace the challenge (the RNG may also answer all-zero / all-ones / an earlier challenge at a refresh).",
+         "All histories of length 6 (quick) / 8 and 12 (thorough) with at most 2 (resp. 1, 3) deviating attempts or refreshes over an alphabet of ~330 adversary actions are executed on the real object; verdict must equal proof == SHA1(U|client_data|current challenge|K) and every attempt must replace the challenge (the RNG may also answer all-zero / all-ones / an earlier challenge at a refresh; the application may go on with a clone of the server object before any attempt); three fixed histories of 70,000 attempts on one, three interleaved and two cloned servers.",
          "History length and deviation count bounded; sessions from an alphabet.",
          "DESIGN.md section 3, C05"),
  "C06": ("E3 sweep", "model_checking",
@@ -62,17 +62,17 @@ CHECKS = {
          "DESIGN.md section 3, C11"),
  "C12": ("E1 statespace + E4 loom + E3", "model_checking",
          "BFS over interleavings of {encrypt, decrypt, split, clone, unsplit} with a differential oracle (separate single-direction objects) and the reference model; loom exploration of all schedules of two real halves in two threads; exhaustive one-byte key differences for unsplit",
-         "Every interleaving up to the depth bound is executed on the real combined object / halves and each direction's bytes are compared with a separate object and the reference model; loom runs all schedules (no preemption bound) of 2 threads x 3 operations over the real halves for five harnesses and all 20 operation orders are observed; Vanilla unsplit is decided for all 40x255 one-byte and all two-position key differences; two Wrath client connections are interleaved through the typed header API (incl. clones and completion of a long header on another thread) by BFS.",
+         "Every interleaving up to the depth bound is executed on the real combined object / halves and each direction's bytes are compared with a separate object and the reference model; loom runs all schedules (no preemption bound) of 2 threads x 3 operations over the real halves for five harnesses and all 20 operation orders are observed; a large Wrath header is split / cloned / moved to another thread between its two decoding steps; Vanilla unsplit is decided for all 40x255 one-byte and all two-position key differences; two Wrath client connections are interleaved through the typed header API (incl. clones and completion of a long header on another thread) by BFS.",
          "Interleaving depth bounded; the schedules argument rests on ownership (no statics/interior mutability - scanned and reported) plus call-level interleavings.",
          "DESIGN.md section 3, C12"),
  "C13": ("E3 sweep", "model_checking",
          "exhaustive enumeration: every Unicode scalar value at every position of every byte length 1..=17, all short strings over a 12-symbol alphabet, all multi-byte strings at the length limit",
-         "118 million constructions cover every scalar value x position x length; all five constructors, Display, idempotence, case-insensitivity and ==/cmp/Hash against the normalised text are compared with the reference rule.",
+         "118 million constructions cover every scalar value x position x length; all five constructors on every enumerated string, Clone, Display, idempotence, case-insensitivity and ==/cmp/Hash against the normalised text are compared with the reference rule; lengths up to 1,100 and around 2^16, 2^17, 2^24 (thorough 2^32).",
          "Multi-character combinations beyond the small alphabets are not enumerated.",
          "DESIGN.md section 3, C13"),
  "C14": ("E3 sweep + E1", "model_checking",
          "enumeration of adversarial and algebraically targeted peer values (incl. B = k*v mod N forcing S = 0) through the typestate API with catch_unwind; BFS over header byte sequences",
-         "Every combination of the adversarial alphabets for A, M1, reconnect values (server) and B, salt, M2 (client) with a and b pinned by the RNG script is executed; no call may unwind and results must match the reference where it is defined; header decrypt calls in any order (incl. the Wrath large-header byte before any attempt, short readers) are explored by BFS; chosen-plaintext headers (every first byte x alphabets) go through every decrypt entry point; runs of 66,000+ rejected reconnect attempts; raw encrypt/decrypt calls of every length 0..=600 from every position 0..=40 on all seven cipher objects; the library is built with overflow checks and debug assertions on.",
+         "Every combination of the adversarial alphabets for A, M1, reconnect values (server) and B, salt, M2 (client) with a and b pinned by the RNG script is executed; no call may unwind and results must match the reference where it is defined; header decrypt calls in any order (incl. the Wrath large-header byte before any attempt, short readers) are explored by BFS; chosen-plaintext headers (every first byte x alphabets) go through every decrypt entry point; runs of 66,000+ rejected reconnect attempts; world logins for every pair of boundary seeds incl. the peer echoing ours; raw encrypt/decrypt calls of every length 0..=600 from every position 0..=40 on all seven cipher objects; the library is built with overflow checks and debug assertions on.",
          "Byte values outside the adversarial alphabets are not explored.",
          "DESIGN.md section 3, C14"),
  "C15": ("E2/E3 over the RNG environment", "model_checking",
@@ -92,7 +92,7 @@ CHECKS = {
          "DESIGN.md section 3, C17"),
  "C18": ("E3 sweep", "model_checking",
          "exhaustive enumeration of all 1,457 card shapes of at most 255 cells x 5 digit counts: every coordinate, every round 0..=255, proofs from the printed digits",
-         "For every shape and card content that encodes the cell index, the lookup must return the printed cell at row y, column x; rounds outside 0..count-1 must yield None without panic, challenged coordinates must be distinct and on the card; a client entering the printed digits must be accepted and its proof must equal the reference HMAC/MD5/RC4 definition; altered digit sequences must be rejected.",
+         "For every shape and card content that encodes the cell index, the lookup must return the printed cell at row y, column x; rounds outside 0..count-1 must yield None without panic, challenged coordinates must be distinct and on the card; a client entering the printed digits (its verifier cloned half-way through) must be accepted and its proof must equal the reference HMAC/MD5/RC4 definition; data of the wrong size is refused or yields a card whose lookups still work; altered digit sequences must be rejected.",
          "Seeds and session keys from alphabets (all small seeds for cards of <= 12 cells).",
          "DESIGN.md section 3, C18"),
  "C19": ("E5 dualbuild", "model_checking",
